@@ -42,7 +42,7 @@ Indices(f) ==
     [] f = "dotted" -> {<<t, i>> : t \in 1..Len(MacroTails), i \in 1..NS}
                        \cup {<<t, i, j>> : t \in 1..Len(MacroTails), i \in 1..NS, j \in 1..(IF Quick THEN 3 ELSE NS)}
     [] f = "vec" -> {<<>>} \cup {<<i>> : i \in 1..NS} \cup {<<i, j>> : i, j \in 1..NS}
-    [] f = "adj" -> {<<a, b, o, c>> : a \in 1..Len(MacroAtoms), b \in 1..(IF Quick THEN 5 ELSE Len(MacroProbes)),
+    [] f = "adj" -> {<<a, b, o, c>> : a \in 1..Len(MacroAtoms), b \in 1..(IF Quick THEN 6 ELSE Len(MacroProbes)),
                                      o \in 1..2, c \in 1..(IF Quick THEN 1 ELSE 2)}
     [] OTHER -> {<<c, a, sh>> : c \in 1..Len(MacroComposites), a \in 1..NS, sh \in 1..7}
 
